@@ -124,7 +124,7 @@ def synth_taper_cases(ctx, rng, count):
 
 
 # ------------------------------------------------------------------------------------------------ trimming
-ONE_Q = ["idle", "X", "RXpi", "RX3pi", "RX-pi", "RX2pi", "RXgen", "Z", "RZ", "H", "Y", "RYpi", "RYgen", "S"]
+ONE_Q = ["idle", "X", "RXpi", "RX3pi", "RX-pi", "RX2pi", "RXgen", "Z", "RZ", "H", "Y", "RYpi", "RYgen", "S", "RXnear", "RXnear"]
 
 
 def one_gate(kind, q, rng):
@@ -132,9 +132,12 @@ def one_gate(kind, q, rng):
     if kind in ("X", "Z", "H", "Y", "S"):
         return Gate(kind, q), [kind, None]
     ang = {"RXpi": math.pi, "RX3pi": 3 * math.pi, "RX-pi": -math.pi, "RX2pi": 2 * math.pi, "RYpi": math.pi}.get(kind)
+    if kind == "RXnear":
+        # close to an odd multiple of pi but clearly outside the documented tolerance (1e-5) of the bit-flip test
+        ang = rng.choice([1, 3, -1]) * math.pi + rng.choice([-1, 1]) * rng.choice([3e-5, 1e-4, 1e-3, 5e-3, 2e-2])
     if ang is None:
         ang = round(rng.uniform(0.2, 6.0), 4) if rng.random() < 0.7 else round(4 * math.pi + rng.uniform(0.2, 1.0), 4)
-    name = {"RXpi": "RX", "RX3pi": "RX", "RX-pi": "RX", "RX2pi": "RX", "RXgen": "RX", "RZ": "RZ", "RYpi": "RY", "RYgen": "RY"}[kind]
+    name = {"RXpi": "RX", "RX3pi": "RX", "RX-pi": "RX", "RX2pi": "RX", "RXgen": "RX", "RZ": "RZ", "RYpi": "RY", "RYgen": "RY", "RXnear": "RX"}[kind]
     return Gate(name, q, parameter=ang), [name, ang]
 
 
